@@ -22,6 +22,7 @@ ap.add_argument("--skip-confirm", action="store_true")
 a = ap.parse_args()
 
 d = tempfile.mkdtemp(prefix="seed-", dir="/var/tmp")
+os.chmod(d, 0o755)  # servers that run as another user must be able to reach the copy
 rc_all = 0
 try:
     dst = os.path.join(d, "repo")
